@@ -45,6 +45,7 @@ type c06Scenario struct {
 	GroupWait     int       `json:"group_wait"`
 	GroupInterval int       `json:"group_interval"`
 	Maint         int       `json:"maint"` // dispatcher maintenance interval (seconds)
+	Limit         int       `json:"limit"` // aggregation group limit (0 = none); with two group keys a limit of 3 must never bind (the count includes destroyed groups awaiting the sweep, at most one per key)
 	Park          []string  `json:"park"`  // hook points at which goroutines park
 	Steps         []c06Step `json:"steps"`
 }
@@ -56,6 +57,7 @@ func genC06(t *rapid.T) c06Scenario {
 		GroupWait:     rapid.SampledFrom([]int{0, 5}).Draw(t, "gw"),
 		GroupInterval: rapid.SampledFrom([]int{10, 30}).Draw(t, "gi"),
 		Maint:         rapid.SampledFrom([]int{7, 15, 60}).Draw(t, "maint"),
+		Limit:         rapid.SampledFrom([]int{0, 3, 3}).Draw(t, "limit"), // the count includes destroyed groups not yet swept: one per key, so 3 never binds with two keys
 	}
 	for _, p := range c06Points {
 		if rapid.IntRange(0, 3).Draw(t, "park") > 0 {
@@ -77,6 +79,10 @@ func genC06(t *rapid.T) c06Scenario {
 	}
 	return sc
 }
+
+type c06Limits int
+
+func (l c06Limits) MaxNumberOfAggregationGroups() int { return int(l) }
 
 type c06Parked struct {
 	seq   int
@@ -119,7 +125,7 @@ func execC06(sc c06Scenario) (res pbt.Result) {
 		})
 		dm := dispatch.NewDispatcherMetrics(false, reg, featurecontrol.NoopFlags{})
 		disp := dispatch.NewDispatcher(alerts, dispatch.NewRoute(cr, nil), stage, marker.NewGroupMarker(), func(d time.Duration) time.Duration { return d },
-			time.Duration(sc.Maint)*time.Second, nil, nopLog, eventrecorder.NopRecorder(), dm, nil)
+			time.Duration(sc.Maint)*time.Second, c06Limits(sc.Limit), nopLog, eventrecorder.NopRecorder(), dm, nil)
 
 		parkAt := map[string]bool{}
 		for _, p := range sc.Park {
